@@ -2,6 +2,8 @@ package rules
 
 import (
 	"fmt"
+	"go/types"
+	"sort"
 	"strings"
 
 	"golang.org/x/tools/go/ssa"
@@ -175,59 +177,186 @@ func earlyExitOK(l *model.AnyLoop, b, s *ssa.BasicBlock) string {
 func c07FallThrough(c *Ctx, F *model.Fields) {
 	R := c.R
 	type scope struct {
-		fn, elemTable, globRole, what string
+		fn, globRole, elemType, what string
 	}
 	for _, sc := range []scope{
-		{"(*Policy).sanitizeAttrs", "aps", "globalAttrs", "attribute"},
-		{"(*Policy).sanitizeStyles", "phi(sps)", "globalStyles", "style property"},
+		{"(*Policy).sanitizeAttrs", "globalAttrs", "attrPolicy", "attribute"},
+		{"(*Policy).sanitizeStyles", "globalStyles", "stylePolicy", "style property"},
 	} {
 		fn := c.P.Func(load.ModPath, sc.fn)
 		if fn == nil {
 			R.Unknown("C07.R2", sc.fn, sc.fn, "", "not found")
 			continue
 		}
-		A := model.NewAnalysis(fn)
-		translateAll(A)
-		glob := fn.Params[0].Name() + "." + F.Get(sc.globRole)
-		var elemBlk, globBlk *ssa.BasicBlock
-		for _, b := range fn.Blocks {
-			ifi, ok := b.Instrs[len(b.Instrs)-1].(*ssa.If)
-			if !ok {
-				continue
-			}
-			f := A.Cond(ifi.Cond)
-			if f.Op != 'a' {
-				continue
-			}
-			k := A.Atoms[f.Atom].Key
-			if strings.HasPrefix(k, "mapok("+sc.elemTable) {
-				elemBlk = b
-			}
-			if strings.HasPrefix(k, "mapok("+glob+",") {
-				globBlk = b
-			}
-		}
 		key := pa.CalleeName(fn)
 		cons := key + ": element-scope rules exhausted or absent → global-scope lookup of the same " + sc.what
-		if elemBlk == nil || globBlk == nil {
-			R.Unknown("C07.R2", key, cons, c.P.Pos(fn.Pos()), fmt.Sprintf("scope lookups not recognised (element scope: %v, global scope: %v)", elemBlk != nil, globBlk != nil))
-			continue
+		A := model.NewAnalysis(fn)
+		translateAll(A)
+		glob := F.Get(sc.globRole)
+		// lookups of rule lists: map[string][]<rule type>; global = map loaded from the receiver's global table
+		type lk struct {
+			in     *ssa.Lookup
+			global bool
+			key    string
 		}
-		// same key in both lookups
-		ke := A.Atoms[A.Cond(elemBlk.Instrs[len(elemBlk.Instrs)-1].(*ssa.If).Cond).Atom].Key
-		kg := A.Atoms[A.Cond(globBlk.Instrs[len(globBlk.Instrs)-1].(*ssa.If).Cond).Atom].Key
-		sameKey := ke[strings.LastIndex(ke, ","):] == kg[strings.LastIndex(kg, ","):]
-		// (a) the absent edge reaches the global lookup directly
-		okA := straightTo(elemBlk.Succs[1], globBlk)
-		// (b) the exhaustion edge of the element-scope rule loop reaches it
-		okB := false
-		for _, l := range model.RangeLoopsAll(fn) {
-			if s := A.Sym.Of(l.Over); strings.HasPrefix(s, "lookup("+sc.elemTable) && reaches(elemBlk.Succs[0], l.Header) {
-				okB = straightTo(l.Exit, globBlk)
+		var lks []lk
+		for _, b := range fn.Blocks {
+			for _, in := range b.Instrs {
+				l, ok := in.(*ssa.Lookup)
+				if !ok {
+					continue
+				}
+				mt, ok := l.X.Type().Underlying().(*types.Map)
+				if !ok {
+					continue
+				}
+				sl, ok := mt.Elem().Underlying().(*types.Slice)
+				if !ok {
+					continue
+				}
+				if n, ok := sl.Elem().(*types.Named); !ok || n.Obj().Name() != sc.elemType {
+					continue
+				}
+				// a lookup that only serves as the base of an append (merging rule tables) consults nothing
+				onlyAppendBase := l.Referrers() != nil && len(*l.Referrers()) > 0
+				if l.Referrers() != nil {
+					for _, r := range *l.Referrers() {
+						if ac, base := model.IsAppend(valueOf(r)); ac == nil || base != ssa.Value(l) {
+							onlyAppendBase = false
+						}
+					}
+				}
+				if onlyAppendBase {
+					continue
+				}
+				lks = append(lks, lk{l, glob != "" && model.LoadedPolicyField(l.X) == glob, A.Sym.Of(l.Index)})
 			}
 		}
-		R.Check(sameKey && okA && okB, "C07.R2", key, cons, c.P.Pos(lastPos(globBlk)), "both edges lead straight to the global lookup (same key)",
-			fmt.Sprintf("element-scope rules shadow global rules (same key: %v; absent-entry edge reaches the global lookup: %v; exhausted-rules edge reaches it: %v)", sameKey, okA, okB))
+		var elemKeys []string
+		seenK := map[string]bool{}
+		nG := 0
+		for _, l := range lks {
+			if l.global {
+				nG++
+			} else if !seenK[l.key] {
+				seenK[l.key] = true
+				elemKeys = append(elemKeys, l.key)
+			}
+		}
+		if len(elemKeys) == 0 || nG == 0 {
+			R.Unknown("C07.R2", key, cons, c.P.Pos(fn.Pos()), fmt.Sprintf("scope lookups not recognised (element-scope lookups: %d, global-scope lookups: %d)", len(elemKeys), nG))
+			continue
+		}
+		sort.Strings(elemKeys)
+		for _, k := range elemKeys {
+			// the loop whose iterations decide one key: the outermost slice loop containing an element-scope lookup of k
+			var loop *model.RangeLoop
+			for _, l := range model.SliceRangeLoops(fn) {
+				has := false
+				for _, x := range lks {
+					if !x.global && x.key == k && l.Blocks[x.in.Block()] {
+						has = true
+					}
+				}
+				if has && (loop == nil || l.Blocks[loop.Header]) {
+					loop = l
+				}
+			}
+			okey := key + ":" + stripIDs(k)
+			if loop == nil {
+				R.Unknown("C07.R2", okey, cons, c.P.Pos(fn.Pos()), "the element-scope lookup is not inside a loop over the items being filtered")
+				continue
+			}
+			evE, evG, evApp := A.EventVar("element-scope-consulted"), A.EventVar("global-scope-consulted"), A.EventVar("item-kept")
+			// path-sensitive where affordable: the conditions branched on inside the item loop
+			track := []int{evE, evG, evApp}
+			tm := map[int]bool{}
+			// only conditions evaluated after the first consultation matter
+			after := map[*ssa.BasicBlock]bool{}
+			var stack []*ssa.BasicBlock
+			for _, x := range lks {
+				if x.key == k && loop.Blocks[x.in.Block()] {
+					stack = append(stack, x.in.Block())
+				}
+			}
+			for len(stack) > 0 {
+				b := stack[len(stack)-1]
+				stack = stack[:len(stack)-1]
+				if after[b] || !loop.Blocks[b] || b == loop.Header {
+					continue
+				}
+				after[b] = true
+				stack = append(stack, b.Succs...)
+			}
+			for b := range after {
+				if ifi, ok := b.Instrs[len(b.Instrs)-1].(*ssa.If); ok {
+					A.Cond(ifi.Cond).Atoms(tm)
+				}
+			}
+			var extra []int
+			for a := range tm {
+				extra = append(extra, a)
+			}
+			sort.Ints(extra)
+			A.PhiFilter = func(ph *ssa.Phi) bool { return loop.Blocks[ph.Block()] }
+			q, err := A.NewQuery(append(append([]int{}, track...), extra...))
+			if err != nil {
+				R.Notes = append(R.Notes, "C07.R2 "+okey+": path-insensitive fallback ("+err.Error()+")")
+				A.PhiFilter = func(*ssa.Phi) bool { return false }
+				q, err = A.NewQuery(track)
+			}
+			if err != nil {
+				R.Unknown("C07.R2", okey, cons, c.P.Pos(fn.Pos()), err.Error())
+				continue
+			}
+			for _, x := range lks {
+				if x.key != k {
+					continue
+				}
+				e := evE
+				if x.global {
+					e = evG
+				}
+				q.Hooks[x.in] = func(a uint32) []uint32 { return []uint32{q.With(a, e, true)} }
+			}
+			for b := range loop.Blocks {
+				for _, in := range b.Instrs {
+					if cl, ok := in.(*ssa.Call); ok {
+						if ac, _ := model.IsAppend(cl); ac != nil {
+							q.Hooks[in] = func(a uint32) []uint32 { return []uint32{q.With(a, evApp, true)} }
+						}
+					}
+				}
+			}
+			q.Barrier[loop.Header] = true
+			q.Run(loop.Body, q.InitWith(map[int]bool{evE: false, evG: false, evApp: false}))
+			goal := pa.Implies(pa.And(pa.AtomF(evE), pa.Not(pa.AtomF(evApp))), pa.AtomF(evG))
+			bad := ""
+			nBack := 0
+			for _, p := range loop.Header.Preds {
+				if !loop.Blocks[p] {
+					continue
+				}
+				for kk, s := range p.Succs {
+					if s != loop.Header {
+						continue
+					}
+					st := q.EdgeState(p, kk)
+					if st == nil || pa.Empty(st) {
+						continue
+					}
+					nBack++
+					if ok, cex := q.Holds(st, goal); !ok {
+						bad = fmt.Sprintf("an item can be dropped after only its element-scope rules were consulted (back edge at %s: %s)", c.P.Pos(lastPos(p)), cex)
+					}
+				}
+			}
+			if nBack == 0 {
+				R.Unknown("C07.R2", okey, cons, c.P.Pos(lastPos(loop.Header)), "no back edge of the item loop reached")
+				continue
+			}
+			R.Check(bad == "", "C07.R2", okey, cons, c.P.Pos(lastPos(loop.Header)), "every iteration that consulted the element-scope rules and kept nothing also consulted the global-scope rules for the same key", "element-scope rules shadow global rules: "+bad)
+		}
 	}
 }
 
@@ -379,4 +508,9 @@ func c07Completeness(c *Ctx, F *model.Fields) {
 	R.Check(ok, "C07.R4", "styles", "(*Policy).sanitizeStyles: style rules applied to the element", c.P.Pos(parse.Pos()),
 		"pattern style rules are merged on every path",
 		"when the element has a non-empty explicit entry in elsAndStyles, matching element patterns are not consulted: style rules attached through OnElementsMatching are ignored for that element")
+}
+
+func valueOf(in ssa.Instruction) ssa.Value {
+	v, _ := in.(ssa.Value)
+	return v
 }
